@@ -42,10 +42,11 @@ def load_corpus():
 
 
 # ------------------------------------------------------------------ declarations without a value
-# `name:` directly before the closing brace (no value AND no `;`): get_css_section() does not report
-# such a declaration at all although select_item_css() treats it like `name:;` (see the final report
-# of the strengthening round; same in upstream Emmet).  The class stays generated only on request.
-EMPTY_VALUE_AT_BODY_END = False
+# `name:` + blanks / comments up to the closing brace (no value AND no `;`): a declaration terminated by the
+# end of the body, so the statement wants it reported like `name:;` (name, before, after, empty value range
+# between colon and end of body, no value tokens).  get_css_section() used to drop it (repaired, see
+# known_findings.d/c17empty.json); select_item_css() always treated both forms alike.
+EMPTY_VALUE_AT_BODY_END = True
 
 EMPTY_FILL = ['', '', '', ' ', ' ', '  ', '\n', '\n    ', '\t', '\r\n', '\xa0']
 STRAY = [';', ';', ';;', '; ;', ';\n;']
@@ -211,7 +212,9 @@ def run_css(ctx):
             'before, after, an empty value range and no value tokens, the offset of the empty range is taken from '
             'select-next asked one character into the name and admitted only when colon < offset <= terminator, then '
             'all three functions are compared at every position as for the first stream (and with the model). '
-            'Not generated (EMPTY_VALUE_AT_BODY_END off): `name:` with neither value nor `;` before the closing brace.')
+            'In the sheets of this stream without forced semicolons the last declaration of a body may also be `name:` + '
+            'blanks / comments up to the closing brace (neither value nor `;`): the admitted offsets for its empty value '
+            'are colon < offset <= closing brace, after = that offset.')
     ctx.cov['rule'] = (ctx.cov['rule'] + ' || ' if ctx.cov.get('rule') else '') + rule
     corpus = load_corpus()
     docs = [(c['text'], c['items']) for c in corpus]
